@@ -16,6 +16,16 @@ def run(ctx, res):
                 CollapseAmbiguities().transform(t)
             except Exception as e:
                 res.violation('regression of fixed finding F12: ' + f['what'], dict(w, error=repr(e)))
+        if f['id'] == 'F24' and f['status'] == 'open':
+            from lark import Lark
+            w = f['witness']
+            t = Lark(w['grammar'], parser='earley', ambiguity='explicit').parse(w['text'])
+            import ebnflib
+            got = ebnflib.tree_set(t)
+            if got == ['["T", "x", []]']:
+                res.known_hits.append(('F24', '%s: %r on %r gives only x(), the derivation through the second alternative (tree y()) is missing' % (f['what'], w['grammar'], w['text'])))
+            elif sorted(got) != ['["T", "x", []]', '["T", "y", []]']:
+                res.violation('the pinned witness of F24 behaves in a new way', dict(w, got=got))
     jobs, outs = forestlib.forest_stream(ctx, 4, {'c04'}, 1500, 20000, prio=False)
     for job, rec in problems(res, jobs, outs, 'parsing with ambiguity=explicit'):
         if 'gerr' in rec:
@@ -58,3 +68,7 @@ def run(ctx, res):
                 res.violation('CollapseAmbiguities raised', dict(where, error=run_['collapse_error'])); continue
             if 'collapse_trees' in run_ and sorted(set(run_['collapse_trees'])) != got:
                 res.violation('CollapseAmbiguities disagrees with the plain expansion of _ambig nodes', where)
+    # the grammar as *written* (EBNF) against its hand-desugared plain form: the derivations lost or invented by lark's EBNF compilation are invisible to the
+    # enumeration above (it starts from the compiled rules)
+    import ebnflib
+    ebnflib.check(ctx, res, 44, 250, 6000, big=False, label='EBNF (explicit ambiguity: exact set of trees)', exact=True)
